@@ -203,7 +203,7 @@ pub async fn run(seed: u64, sched: Rc<Sched>, keep_log: bool) -> (CaseResult, Ve
     let genesis = w.committee.genesis.hash();
     let other_genesis: validator::GenesisHash = rng.gen();
     let (av, a1, aadv) = (addr(3000), addr(3001), addr(3999));
-    let strategy = rng.gen_range(0..14u32);
+    let strategy = rng.gen_range(0..16u32);
     let needs_h1 = matches!(strategy, 2 | 7 | 9 | 10);
     let dyn_limit = rng.gen_range(0..3usize);
     let static_in: HashSet<node::PublicKey> = if rng.gen_bool(0.5) { [w.node_keys[1].public()].into() } else { HashSet::new() };
@@ -235,6 +235,10 @@ pub async fn run(seed: u64, sched: Rc<Sched>, keep_log: bool) -> (CaseResult, Ve
     // Keys the adversary generates on the fly (it holds their secrets).
     let adv_extra: Arc<Mutex<BTreeSet<String>>> = Arc::default();
     let adv_extra2 = adv_extra.clone();
+    // Gossip connections on which the victim accepted the adversary's handshake: (conn, identity).
+    let claims: Arc<Mutex<Vec<(u64, String)>>> = Arc::default();
+    let claims2 = claims.clone();
+    let v0pub = w.committee.keys[0].public();
     let adversary = gtokio::spawn(async move {
         let root = ctx::test_root(&adv_clock);
         let ctx = &root.with_timeout(time::Duration::seconds(60));
@@ -248,7 +252,10 @@ pub async fn run(seed: u64, sched: Rc<Sched>, keep_log: bool) -> (CaseResult, Ve
                 break;
             }
         }
-        let _ = ctx.sleep(time::Duration::milliseconds(50)).await;
+        // (Strategy 15 sometimes races the victim's own loopback connection.)
+        if !(strategy == 15 && arng.gen_bool(0.5)) {
+            let _ = ctx.sleep(time::Duration::milliseconds(50)).await;
+        }
         match strategy {
             // I0: genuine handshake as the Byzantine committee member VB (control).
             0 => {
@@ -441,6 +448,44 @@ pub async fn run(seed: u64, sched: Rc<Sched>, keep_log: bool) -> (CaseResult, Ve
                     keep.push(s);
                 }
             }
+            // GD: gossip endpoint, the same few identities dial again and again (connect,
+            // duplicate, connect again ...): one connection per identity, quota in force.
+            14 => {
+                adv_extra2.lock().unwrap().insert(format!("{:?}", nx.public()));
+                for _ in 0..arng.gen_range(3..7) {
+                    let key = if arng.gen_range(0..100) < 70 { &nb } else { &nx };
+                    let Ok(tcp) = net2.dial_as(av, "adv") else { continue };
+                    let conn = tcp.conn;
+                    let Some(mut s) = preface_connect(ctx, tcp, &EP_GOSSIP).await else { continue };
+                    let sid = session_id(&s);
+                    send_frame(&mut s, &gossip_handshake(&key.sign_msg(sid), &genesis, false)).await;
+                    if recv_frame(&mut s).await.is_some() {
+                        claims2.lock().unwrap().push((conn, format!("{:?}", key.public())));
+                    }
+                    keep.push(s);
+                    if arng.gen_bool(0.5) {
+                        let _ = ctx.sleep(time::Duration::milliseconds(arng.gen_range(1..30))).await;
+                    }
+                }
+            }
+            // I8: claim the victim's own validator identity (signed with VB's key), racing or
+            // displacing the victim's loopback connection.
+            15 => {
+                if arng.gen_bool(0.5) {
+                    let k = net2.cut(|c| c.client == "victim" && c.server == "victim");
+                    note(format!("I8 cut {k} loopback connections"));
+                }
+                for _ in 0..arng.gen_range(1..4) {
+                    if let Some(mut s) = async { preface_connect(ctx, net2.dial_as(av, "adv").ok()?, &EP_CONSENSUS).await }.await {
+                        let sid = session_id(&s);
+                        let mut signed = vb.sign_msg(sid);
+                        signed.key = v0pub.clone();
+                        send_frame(&mut s, &consensus_handshake(&signed, &genesis)).await;
+                        note(format!("I8 response: {}", recv_frame(&mut s).await.is_some()));
+                        keep.push(s);
+                    }
+                }
+            }
             // G: gossip endpoint. Several identities dial: outsiders (quota), a forged static peer.
             _ => {
                 let forged_static = strategy == 13;
@@ -485,11 +530,17 @@ pub async fn run(seed: u64, sched: Rc<Sched>, keep_log: bool) -> (CaseResult, Ve
     }
     let mut seen: BTreeMap<&'static str, BTreeSet<String>> = BTreeMap::new();
     let (hist_o, net_o, vslot_o) = (hist.clone(), net.clone(), victim_slot.clone());
+    let sched_o = sched.clone();
+    // Has the victim dropped its end of the connection?
+    let victim_end_open = |c: &crate::kit::simnet::ConnInfo, victim_is_server: bool| -> bool {
+        let (a, b) = (c.tx_c2s.lock().unwrap(), c.tx_s2c.lock().unwrap());
+        if victim_is_server { !(b.write_closed && a.read_closed) } else { !(a.write_closed && b.read_closed) }
+    };
     let static_in_txt: BTreeSet<String> = static_in.iter().map(|k| format!("{k:?}")).collect();
-    let _ = d
-        .drive(
-            || adversary.is_finished(),
-            |_| {
+    let mut observe = |quiescent: bool| {
+                if !hist_o.lock().unwrap().violations.is_empty() {
+                    return;
+                }
                 let Some(vnet) = vslot_o.lock().unwrap().clone() else { return };
                 let extra_adv_keys = adv_extra.lock().unwrap().clone();
                 let v = network::verif::view(&vnet);
@@ -500,7 +551,70 @@ pub async fn run(seed: u64, sched: Rc<Sched>, keep_log: bool) -> (CaseResult, Ve
                     ("gossip_outbound", v.gossip_outbound.iter().map(|k| format!("{k:?}")).collect(), false, false),
                 ];
                 let conns = net_o.conns();
+                // Nothing is runnable: every handshake and every refusal that can happen without
+                // the clock moving has happened, pools and connections are consistent.
+                if quiescent {
+                    hist_o.probe("quiescent_point_checked");
+                    // One admitted connection per identity (gossip inbound, adversary's dials).
+                    let mut admitted: BTreeMap<String, Vec<u64>> = BTreeMap::new();
+                    for (conn, key) in claims.lock().unwrap().iter() {
+                        if conns.iter().any(|c| c.id == *conn && victim_end_open(c, true)) {
+                            admitted.entry(key.clone()).or_default().push(*conn);
+                        }
+                    }
+                    for (key, cs) in &admitted {
+                        if cs.len() > 1 {
+                            hist_o.violation("C12", "several_connections_for_one_identity", format!("the victim keeps {} inbound gossip connections {cs:?} open for identity {key} (handshake accepted on each)", cs.len()));
+                        }
+                    }
+                    let extra = admitted.keys().filter(|k| !static_in_txt.contains(*k)).count();
+                    if extra > dyn_limit {
+                        hist_o.violation("C12", "inbound_quota_exceeded", format!("{extra} non-configured gossip identities hold an admitted connection, dynamic_inbound_limit is {dyn_limit}"));
+                    }
+                }
+                // Every inbound pool entry names the connection holding it: the actor at the far
+                // end of that very connection must hold the secret of the attributed identity.
+                let by_conn: Vec<(&'static str, String, SocketAddr)> = v
+                    .consensus_inbound_addrs
+                    .iter()
+                    .map(|(k, a)| ("consensus_inbound", format!("{k:?}"), *a))
+                    .chain(v.gossip_inbound_addrs.iter().map(|(k, a)| ("gossip_inbound", format!("{k:?}"), *a)))
+                    .collect();
+                for (pool, k, peer_addr) in by_conn {
+                    let Some(c) = conns.iter().find(|c| c.server == "victim" && c.client_local == peer_addr) else {
+                        hist_o.violation("C12", "pool_entry_without_connection", format!("{pool} holds {k} for peer address {peer_addr}, which is no connection made to the victim"));
+                        continue;
+                    };
+                    let far = c.client.as_str();
+                    if !(holds.get(far).is_some_and(|h| h.contains(&k)) || (far == "adv" && extra_adv_keys.contains(&k))) {
+                        hist_o.violation(
+                            "C12",
+                            "connection_attributed_to_unproven_identity",
+                            format!("{pool} of the victim attributes connection {} (from {peer_addr}, far end operated by {far}) to {k}, whose secret {far} does not hold", c.id),
+                        );
+                    }
+                }
                 for (pool, keys, inbound, validator_pool) in pools {
+                    if quiescent {
+                        // Every identity in a pool is backed by a connection which the victim
+                        // still holds and whose far end can prove that identity.
+                        for k in &keys {
+                            let backed = conns.iter().any(|c| {
+                                let (far, ours_is_server) = if inbound { (&c.client, true) } else { (&c.server, false) };
+                                let victim_side = if inbound { c.server == "victim" } else { c.client == "victim" };
+                                victim_side
+                                    && victim_end_open(c, ours_is_server)
+                                    && (holds.get(far.as_str()).is_some_and(|h| h.contains(k)) || (far == "adv" && extra_adv_keys.contains(k)))
+                            });
+                            if !backed {
+                                hist_o.violation(
+                                    "C12",
+                                    "pool_entry_without_proven_connection",
+                                    format!("{pool} of the victim contains {k}, but none of the connections the victim still holds in that direction has a far end holding that key's secret"),
+                                );
+                            }
+                        }
+                    }
                     let set: BTreeSet<String> = keys.iter().cloned().collect();
                     if set.len() != keys.len() {
                         hist_o.violation("C12", "duplicate_identity_in_pool", format!("{pool}: {keys:?}"));
@@ -539,9 +653,24 @@ pub async fn run(seed: u64, sched: Rc<Sched>, keep_log: bool) -> (CaseResult, Ve
                         }
                     }
                 }
-            },
-        )
-        .await;
+    };
+    // Every few dozen steps the director lets the system run dry without moving the clock
+    // (a quiescent point), where pools and connections must be consistent.
+    loop {
+        let mut budget = 60;
+        let e = d.drive(|| { budget -= 1; adversary.is_finished() || budget < 0 }, |_| observe(sched_o.ready_len() == 0)).await;
+        if adversary.is_finished() || !matches!(e, crate::prim::DriveEnd::Done) {
+            break;
+        }
+        let pct = d.tick_pct;
+        d.tick_pct = 0;
+        let mut cap = 5000;
+        let _ = d.drive(|| { cap -= 1; sched_o.ready_len() == 0 || cap < 0 }, |_| observe(false)).await;
+        d.tick_pct = pct;
+        if sched_o.ready_len() == 0 {
+            observe(true);
+        }
+    }
     let pools_seen: usize = seen.values().map(|s| s.len()).sum();
     let entries_ever = hist.lock().unwrap().events.iter().filter(|(_, e)| matches!(e, Ev::Pool { .. })).count();
     let _ = kill_v.send(());
